@@ -209,11 +209,20 @@ fn stack_fold(stack: &[u8; 512]) -> u64 {
 
 fn make_layout(rng: &mut Rng, cl: bool) -> Layout {
     let kind = *rng.pick(&[Kind::Mbuff, Kind::Mbuff, Kind::Raw, Kind::Raw, Kind::Raw, Kind::Fixed, Kind::Fixed, Kind::NoData]);
-    let plen = if kind == Kind::NoData { 0 } else { *rng.pick(&[0usize, 1, 7, 8, 9, 64, 4096]) };
+    // one layout in ten has a packet beyond 64 KiB (offsets and lengths that no longer fit 16 bits;
+    // ld_abs immediates >= 65536), one metadata VM in ten a metadata buffer beyond a page / 64 KiB
+    let big = !cfg!(miri) && rng.chance(1, 10);
+    let plen = if kind == Kind::NoData {
+        0
+    } else if big {
+        *rng.pick(&[65535usize, 65536, 65537, 65536 + 4096 + 3, (1 << 20) + 5])
+    } else {
+        *rng.pick(&[0usize, 1, 7, 8, 9, 64, 4096])
+    };
     let end_aligned = rng.chance(1, 2);
     let pkt = if plen == 0 { None } else { Some(GuardBuf::new(plen, end_aligned, cl)) };
     let mbuff = if kind == Kind::Mbuff {
-        let ml = *rng.pick(&[1usize, 8, 32]);
+        let ml = if !cfg!(miri) && rng.chance(1, 10) { *rng.pick(&[4096usize, 65537]) } else { *rng.pick(&[1usize, 8, 32]) };
         Some(GuardBuf::new(ml, !end_aligned, cl))
     } else {
         None
@@ -376,7 +385,284 @@ fn expectation(regs: &[(String, u64, u64)], addr: u64, w: u64, acc: Acc) -> Expe
     if all_covered { Expect::Either } else { Expect::Refused }
 }
 
+
+/// A buffer of 2^32 + 8192 bytes (reserved, untouched pages cost nothing) between two PROT_NONE pages.
+#[cfg(not(miri))]
+struct HugeBuf {
+    map: *mut u8,
+    map_len: usize,
+}
+#[cfg(not(miri))]
+const HUGE_LEN: u64 = (1u64 << 32) + 2 * sys::PAGE as u64;
+#[cfg(not(miri))]
+impl HugeBuf {
+    fn new(shared: bool) -> Option<HugeBuf> {
+        let map_len = HUGE_LEN as usize + 2 * sys::PAGE;
+        unsafe {
+            let flags = if shared { libc::MAP_SHARED } else { libc::MAP_PRIVATE } | libc::MAP_ANONYMOUS | libc::MAP_NORESERVE;
+            let map = libc::mmap(std::ptr::null_mut(), map_len, libc::PROT_READ | libc::PROT_WRITE, flags, -1, 0) as *mut u8;
+            if map as isize == -1 {
+                return None;
+            }
+            libc::mprotect(map as *mut _, sys::PAGE, libc::PROT_NONE);
+            libc::mprotect(map.add(map_len - sys::PAGE) as *mut _, sys::PAGE, libc::PROT_NONE);
+            Some(HugeBuf { map, map_len })
+        }
+    }
+    fn addr(&self) -> u64 {
+        self.map as u64 + sys::PAGE as u64
+    }
+    /// the 40 bytes around offset `d` (8 before, 32 from it on); bytes outside the buffer read as 0
+    fn window(&self, d: u64) -> Vec<u8> {
+        (0..40u64).map(|k| { let o = (d + k).wrapping_sub(8); if o < HUGE_LEN { unsafe { *(self.addr() as *const u8).add(o as usize) } } else { 0 } }).collect()
+    }
+    fn paint(&self, d: u64) {
+        for k in 0..40u64 {
+            let o = (d + k).wrapping_sub(8);
+            if o < HUGE_LEN {
+                unsafe { *(self.addr() as *mut u8).add(o as usize) = huge_pat(o) };
+            }
+        }
+    }
+}
+#[cfg(not(miri))]
+impl Drop for HugeBuf {
+    fn drop(&mut self) {
+        unsafe {
+            libc::munmap(self.map as *mut _, self.map_len);
+        }
+    }
+}
+#[cfg(not(miri))]
+fn huge_pat(o: u64) -> u8 {
+    ((o ^ (o >> 8) ^ (o >> 16) ^ (o >> 32)) as u8).wrapping_mul(37).wrapping_add(11)
+}
+
+/// Regions larger than 4 GiB: lengths, offsets and end addresses that do not fit 32 bits. The huge
+/// buffer is the packet of a raw VM, the metadata buffer of a metadata VM or (interpreter) a
+/// registered range of a no-data VM; accesses at offsets around 2^16, 2^31, 2^32 and the end.
+#[cfg(not(miri))]
+pub fn huge_probes(a: &Args, rep: &mut Report, engine: crate::engines::Engine) {
+    use crate::engines::Engine;
+    let cl = engine == Engine::Cranelift;
+    // the x86-64 JIT emits no bounds checks: only accesses inside the buffer are run (C03: same
+    // value and bytes as the interpreter, which the C02 pass holds to the same expectations)
+    let jit = engine == Engine::Jit;
+    let prop = match engine { Engine::Cranelift => "C11", Engine::Jit => "C03", Engine::Interp => "C02" };
+    if sys::cpu_scale() > 1 {
+        return; // sanitizer / valgrind variants: shadow memory for 4 GiB mappings is not worth it
+    }
+    let Some(hb) = HugeBuf::new(cl) else {
+        rep.inconclusive("huge-buffer probes: mmap of 4 GiB (MAP_NORESERVE) refused".into());
+        return;
+    };
+    let small = GuardBuf::new(64, true, cl);
+    let mut rng = Rng::derive(a.seed, a.shard, if cl { 1111 } else if jit { 333 } else { 222 });
+    let n = (((if a.tier == "quick" { 6_000.0 } else { 60_000.0 }) * a.scale) as u64 / a.nshards).max(40) as usize;
+    let l = HUGE_LEN;
+    let ds: Vec<u64> = vec![0, 1, 65535, 65536, 65537, (1 << 31) - 8, (1 << 31) - 4, (1 << 31) - 1, 1 << 31, (1 << 31) + 4, (1 << 32) - 8, (1 << 32) - 4, (1 << 32) - 1, 1 << 32,
+        (1 << 32) + 1, (1 << 32) + 8, (1 << 32) + 4096, l - 16, l - 8, l - 7, l - 4, l - 3, l - 2, l - 1, l];
+    #[derive(Clone, Debug)]
+    struct H { role: u8, acc: Acc, width: u8, d: u64, off: i16, via_r1: bool, prog: Vec<u8> }
+    let mut cases: Vec<H> = Vec::new();
+    while cases.len() < n {
+        let role = if cl || jit { rng.below(2) as u8 } else { rng.below(3) as u8 }; // 0 packet (raw VM), 1 metadata buffer, 2 registered range (no-data VM)
+        let acc = *rng.pick(&[Acc::Ldx, Acc::Ldx, Acc::St, Acc::Stx, Acc::Xadd, Acc::LdAbs, Acc::LdInd]);
+        let width = if acc == Acc::Xadd { *rng.pick(&[4u8, 8]) } else { *rng.pick(&[1u8, 2, 4, 8]) };
+        let mut d = *rng.pick(&ds);
+        if rng.chance(1, 6) {
+            d = rng.below(l);
+        }
+        if acc == Acc::Xadd {
+            d &= !(width as u64 - 1);
+        }
+        if matches!(acc, Acc::LdAbs | Acc::LdInd) && role != 0 {
+            continue;
+        }
+        if acc == Acc::LdAbs && d >= 1 << 31 {
+            continue; // negative immediates of ld_abs are outside every claim
+        }
+        if jit && d + width as u64 > l {
+            continue;
+        }
+        let off: i16 = *rng.pick(&[0i16, 0, 8, -8, i16::MAX, i16::MIN, 1, -1]);
+        let via_r1 = role != 2 && rng.chance(1, 2);
+        let opc = opcode_for(acc, width);
+        let mut v: Vec<Insn> = Vec::new();
+        match acc {
+            Acc::LdAbs => v.push(Insn::new(opc, 0, 0, 0, d as u32 as i32)),
+            Acc::LdInd => {
+                let imm = off.max(0) as i32;
+                let src = d.wrapping_sub(imm as u64);
+                v.push(Insn::new(LDDW, 3, 0, 0, src as u32 as i32));
+                v.push(Insn::new(0, 0, 0, 0, (src >> 32) as u32 as i32));
+                v.push(Insn::new(opc, 0, 3, 0, imm));
+            }
+            _ => {
+                let b = if via_r1 { d.wrapping_sub(off as i64 as u64) } else { hb.addr().wrapping_add(d).wrapping_sub(off as i64 as u64) };
+                v.push(Insn::new(LDDW, 2, 0, 0, b as u32 as i32));
+                v.push(Insn::new(0, 0, 0, 0, (b >> 32) as u32 as i32));
+                if via_r1 {
+                    v.push(Insn::new(ADD64_REG, 2, 1, 0, 0));
+                }
+                match acc {
+                    Acc::Ldx => v.push(Insn::new(opc, 0, 2, off, 0)),
+                    Acc::St => {
+                        v.push(Insn::new(opc, 2, 0, off, ST_IMM));
+                        v.push(Insn::new(MOV64_IMM, 0, 0, 0, 7));
+                    }
+                    _ => {
+                        v.push(Insn::new(LDDW, 4, 0, 0, STORE_VAL as u32 as i32));
+                        v.push(Insn::new(0, 0, 0, 0, (STORE_VAL >> 32) as u32 as i32));
+                        v.push(Insn::new(opc, 2, 4, off, 0));
+                        v.push(Insn::new(MOV64_IMM, 0, 0, 0, 7));
+                    }
+                }
+            }
+        }
+        v.push(Insn::new(EXIT, 0, 0, 0, 0));
+        cases.push(H { role, acc, width, d, off, via_r1, prog: encode_prog(&v) });
+    }
+    let mut on_death = |i: usize| -> Vec<u8> { hb.window(cases[i].d) };
+    let ends = sys::run_batch_ex(cases.len(), 60, 30, |i, out| {
+        let c = &cases[i];
+        hb.paint(c.d);
+        let r = sys::catch(|| -> Result<u64, String> {
+            let kind = [Kind::Raw, Kind::Mbuff, Kind::NoData][c.role as usize];
+            let mut vm = Vm::new(kind, Some(&c.prog), (0, 8)).map_err(|e| format!("REJECTED {e}"))?;
+            if c.role == 2 {
+                vm.register_allowed(hb.addr()..hb.addr() + l);
+            }
+            hooks::reset(10_000, false);
+            let huge = (hb.addr() as *mut u8, l as usize);
+            let sm = (small.addr() as *mut u8, small.len());
+            let (pk, mb) = match c.role {
+                0 => (huge, (std::ptr::null_mut(), 0)),
+                1 => (sm, huge),
+                _ => ((std::ptr::null_mut(), 0), (std::ptr::null_mut(), 0)),
+            };
+            if cl {
+                #[cfg(feature = "std")]
+                {
+                    vm.cl_compile().map_err(|e| format!("REJECTED compile: {e}"))?;
+                    return vm.exec_cl(pk, mb);
+                }
+            }
+            if jit {
+                #[cfg(any(feature = "std", feature = "stdlite"))]
+                {
+                    vm.jit_compile().map_err(|e| format!("REJECTED compile: {e}"))?;
+                    return unsafe { vm.exec_jit(pk, mb) };
+                }
+            }
+            vm.exec(pk, mb)
+        });
+        let (st, val, msg) = match r {
+            Ok(Ok(v)) => (0u8, v, String::new()),
+            Ok(Err(e)) => (1u8, 0, e),
+            Err(p) => (2u8, 0, p),
+        };
+        out.push(st);
+        out.extend_from_slice(&val.to_le_bytes());
+        out.extend_from_slice(&hb.window(c.d));
+        let m = msg.as_bytes();
+        let ml = m.len().min(200);
+        out.push(ml as u8);
+        out.extend_from_slice(&m[..ml]);
+    }, &mut on_death);
+    for (c, e) in cases.iter().zip(ends.iter()) {
+        let role = ["huge-packet", "huge-mbuff", "huge-range"][c.role as usize];
+        let dclass = if c.d + c.width as u64 > l { "past-end" } else if c.d >= 1 << 32 { "beyond-4G" } else if c.d + c.width as u64 > 1 << 32 { "across-4G" } else if c.d >= 1 << 31 { "beyond-2G" } else if c.d >= 65536 { "beyond-64K" } else { "low" };
+        let cell = format!("{:?}{}:{role}:{dclass}", c.acc, c.width);
+        rep.set("cells", cell.clone());
+        rep.set("layouts", format!("{role}:{}", l));
+        rep.count("huge_buffer_probes");
+        rep.case(Some(crate::util::fnv(&c.prog) ^ crate::util::fnv(role.as_bytes())));
+        let w = json!({"kind": "huge-access-case", "role": role, "access": format!("{:?}", c.acc), "width": c.width, "offset_in_buffer": c.d, "buffer_len": l, "off": c.off, "base_from_r1": c.via_r1, "prog": hex(&c.prog)});
+        let exp_performed = c.d + c.width as u64 <= l;
+        let pattern: Vec<u8> = (0..40u64).map(|k| { let o = (c.d + k).wrapping_sub(8); if o < l { huge_pat(o) } else { 0 } }).collect();
+        let sigbase = format!("{:?}{}:{role}", c.acc, c.width);
+        let (st, val, win, msg) = match e {
+            CaseEnd::Done(b) => {
+                let ml = b[49] as usize;
+                (b[0], u64::from_le_bytes(b[1..9].try_into().unwrap()), b[9..49].to_vec(), String::from_utf8_lossy(&b[50..50 + ml]).to_string())
+            }
+            CaseEnd::Died(s, extra) => {
+                if cl && *s == libc::SIGILL {
+                    rep.count("traps");
+                    if exp_performed {
+                        rep.violation(&format!("C11:trapped-in-region:{sigbase}"), format!("access at offset {:#x} (width {}) of a {l:#x}-byte buffer trapped ({cell})", c.d, c.width), w);
+                    } else if *extra != pattern {
+                        rep.violation(&format!("C11:trap-after-write:{sigbase}"), format!("execution trapped but bytes around offset {:#x} changed ({cell})", c.d), w);
+                    } else {
+                        rep.count("refused_ok");
+                    }
+                } else {
+                    rep.count("faults");
+                    rep.violation(&format!("{prop}:fault-{}:{:?}:{role}", sys::signame(*s), c.acc), format!("execution was killed by {} ({cell}, offset {:#x} of {l:#x})", sys::signame(*s), c.d), w);
+                }
+                continue;
+            }
+            CaseEnd::CpuTimeout => {
+                rep.inconclusive(format!("cpu timeout in {cell}"));
+                continue;
+            }
+            CaseEnd::Inconclusive(s) => {
+                rep.inconclusive(s.clone());
+                continue;
+            }
+        };
+        if st == 2 {
+            rep.violation(&format!("{prop}:panic:{sigbase}:{}", sys::panic_site(&msg)), format!("panicked: {msg}"), w);
+            continue;
+        }
+        if msg.starts_with("REJECTED") {
+            rep.inconclusive(format!("harness program rejected: {msg}"));
+            continue;
+        }
+        rep.count(if exp_performed { "expect_performed" } else { "expect_refused" });
+        match (exp_performed, st) {
+            (false, 0) => rep.violation(&format!("{prop}:performed-out-of-region:{sigbase}"), format!("access at offset {:#x} width {} runs past the end of the {l:#x}-byte buffer but execution returned Ok({val:#x})", c.d, c.width), w),
+            (false, _) => {
+                if win != pattern {
+                    rep.violation(&format!("{prop}:refused-but-wrote:{sigbase}"), format!("access refused but bytes around offset {:#x} changed", c.d), w);
+                } else {
+                    rep.count("refused_ok");
+                }
+            }
+            (true, 1) => rep.violation(&format!("{prop}:refused-in-region:{sigbase}"), format!("access at offset {:#x} width {} lies inside the {l:#x}-byte buffer but {} returned an error: {msg}", c.d, c.width, engine.name()), w),
+            (true, _) => {
+                let mut old = 0u64;
+                for k in 0..c.width as usize {
+                    old |= (pattern[8 + k] as u64) << (8 * k);
+                }
+                let mut want_win = pattern.clone();
+                let newv = match c.acc {
+                    Acc::St => Some(ST_IMM as i64 as u64),
+                    Acc::Stx => Some(STORE_VAL),
+                    Acc::Xadd => Some(old.wrapping_add(STORE_VAL)),
+                    _ => None,
+                };
+                if let Some(nv) = newv {
+                    for k in 0..c.width as usize {
+                        want_win[8 + k] = (nv >> (8 * k)) as u8;
+                    }
+                }
+                if newv.is_none() && val != old {
+                    rep.violation(&format!("{prop}:wrong-load:{sigbase}"), format!("load at offset {:#x} returned {val:#x}, memory holds {old:#x}", c.d), w);
+                } else if win != want_win {
+                    rep.violation(&format!("{prop}:wrong-store:{sigbase}"), format!("bytes around offset {:#x} after the access: {}, expected {}", c.d, hex(&win), hex(&want_win)), w);
+                } else {
+                    rep.count("performed_ok");
+                }
+            }
+        }
+    }
+}
+
 pub fn run(a: &Args, rep: &mut Report, cl: bool) {
+    #[cfg(not(miri))]
+    huge_probes(a, rep, if cl { crate::engines::Engine::Cranelift } else { crate::engines::Engine::Interp });
     let prop = if cl { "C11" } else { "C02" };
     let mut rng = Rng::derive(a.seed, a.shard, if cl { 11 } else { 2 });
     let q = a.tier == "quick";
@@ -415,7 +701,9 @@ pub fn run(a: &Args, rep: &mut Report, cl: bool) {
         }
         // cases for this layout: a random subset of targets x access kinds x widths x splits
         let mut cases: Vec<AccCase> = Vec::new();
-        let per_layout = (if cl { 400 } else { 1500 }).min((target_cases - done) as usize).max(1);
+        // (layouts with large buffers: fewer cases each - every case snapshots all arenas)
+        let large = l.pkt.as_ref().map(|p| p.len()).unwrap_or(0) + l.mbuff.as_ref().map(|m| m.len()).unwrap_or(0) > 8192;
+        let per_layout = (if large { 160 } else if cl { 400 } else { 1500 }).min((target_cases - done) as usize).max(1);
         while cases.len() < per_layout {
             let (tname, t) = targets[rng.below(targets.len() as u64) as usize].clone();
             let acc = accs[rng.below(accs.len() as u64) as usize];
